@@ -30,6 +30,20 @@ func init() {
 				opts.MaskImports = true
 			}
 			v := judgeModelBoth(env, c, opts, 4)
+			for _, alt := range c.Alts {
+				if v.Out.Violation == "" {
+					break
+				}
+				if alt.Render() != c.Change.Render() {
+					panic("harness: an alternative reading is not the same patch text")
+				}
+				c2 := *c
+				c2.Change, c2.Alts = alt, nil
+				if v2 := judgeModelBoth(env, &c2, opts, 4); v2.Out.Violation == "" {
+					v = v2
+				}
+			}
+			v.Out = rejectionIsViolation(v.Out, c.Change.Render(), c.File)
 			return c04Classify(c, v)
 		},
 	})
@@ -134,6 +148,24 @@ func c04KindsBase() []c04Kind {
 		{id: "funclit-params", kind: "expr", lit: map[string]string{"a": "a int", "b": "b string", "c": "c ...bool"}, mvar: "x int", meta: model.MetaVar{Name: "x", Kind: "identifier"},
 			dots: "_ DOTS_%d", sep: ", ", open: "h(func(", close: ") {})", openPlus: "mark(func(", eol: ",", mark: "mark int", markX: "x mark", oneLine: true,
 			fileOpen: "package p\n\nvar _ = h(func(", fileEnd: ") {})\n"},
+		// named results (declaration and function literal), results and parameters of function literals / types
+		{id: "results-named", kind: "decl", lit: map[string]string{"a": "a int", "b": "b string", "c": "c []bool"}, mvar: "x int", meta: model.MetaVar{Name: "x", Kind: "identifier"},
+			dots: "_ DOTS_%d", sep: ", ", open: "func f() (", close: ") {}", openPlus: "func mark() (", eol: ",", mark: "mark int", markX: "x mark", oneLine: true, minLen: 1,
+			fileOpen: "package p\n\nfunc f() (", fileEnd: ") {}\n"},
+		{id: "funclit-results-named", kind: "expr", lit: map[string]string{"a": "a int", "b": "b string", "c": "c []bool"}, mvar: "x int", meta: model.MetaVar{Name: "x", Kind: "identifier"},
+			dots: "_ DOTS_%d", sep: ", ", open: "h(func() (", close: ") {})", openPlus: "mark(func() (", eol: ",", mark: "mark int", markX: "x mark", oneLine: true, minLen: 1,
+			fileOpen: "package p\n\nvar _ = h(func() (", fileEnd: ") {})\n"},
+		{id: "funclit-results", kind: "expr", lit: map[string]string{"a": "int", "b": "p.T", "c": "[]bool"}, mvar: "x", meta: model.MetaVar{Name: "x", Kind: "expression"},
+			dots: "DOTS_%d", sep: ", ", open: "h(func() (", close: ") {})", openPlus: "mark(func() (", eol: ",", mark: "mark", markX: "*x", oneLine: true, minLen: 1,
+			fileOpen: "package p\n\nvar _ = h(func() (", fileEnd: ") {})\n"},
+		{id: "functype-params", kind: "decl", lit: map[string]string{"a": "int", "b": "p.T", "c": "[]bool"}, mvar: "x", meta: model.MetaVar{Name: "x", Kind: "expression"},
+			dots: "DOTS_%d", sep: ", ", open: "type F func(", close: ") error", openPlus: "type Mark func(", eol: ",", mark: "mark", markX: "*x", oneLine: true,
+			fileOpen: "package p\n\ntype F func(", fileEnd: ") error\n"},
+		// the statement list itself is the pattern (implicit elisions at both ends, explicit ones inside): it is
+		// matched against the whole body, no statement before or after
+		{id: "stmts-top", kind: "stmts", lit: map[string]string{"a": "a()", "b": "b.c = 1", "c": "if g(1) { a() }"}, mvar: "x()", meta: model.MetaVar{Name: "x", Kind: "identifier"},
+			dots: "DOTS_%d", sep: "; ", open: "", close: "", eol: "", mark: "mark()", markX: "mark(x)",
+			fileOpen: "package p\n\nfunc f() {", fileEnd: "}\n"},
 		{id: "stmts-ifbody", kind: "stmts", lit: map[string]string{"a": "a()", "b": "b.c = 1", "c": "for { a() }"}, mvar: "x()", meta: model.MetaVar{Name: "x", Kind: "identifier"},
 			dots: "DOTS_%d", sep: "; ", open: "if cond {", close: "}", eol: "", mark: "mark()", markX: "mark(x)",
 			fileOpen: "package p\n\nfunc _() {\n\tpre()\n\tif cond {", fileEnd: "}\n\tpost()\n}\n"},
@@ -198,8 +230,8 @@ func c04Gen(tier string, emit func(any)) {
 			kpats = c04Patterns(pl - 1) // the six later list kinds run one pattern length lower in the quick tier
 		}
 		for _, pat := range kpats {
-			if k.kind == "stmts" && (pat[0] == "D" || pat[len(pat)-1] == "D") && false {
-				continue
+			if k.id == "stmts-top" && (pat[0] == "D" || pat[len(pat)-1] == "D") {
+				continue // an explicit elision next to the implicit one of a statement-list pattern
 			}
 			for _, ch := range c04Changes(k, pat) {
 				for _, l := range lists {
@@ -218,7 +250,10 @@ func c04Gen(tier string, emit func(any)) {
 					if ch.layout == "ctx-inline" {
 						file = k.inlineFileOpen + strings.Join(els, sep) + k.inlineFileEnd
 					}
-					emit(&MCase{Change: ch.c, File: file, Tag: fmt.Sprintf("%s/%s/%s", k.id, ch.layout, strings.Join(pat, ""))})
+					if ch.layout == "ctx-moved" {
+						file = strings.Replace(k.inlineFileOpen, "pre()", "pre(1, 2)", 1) + strings.Join(els, sep) + k.inlineFileEnd
+					}
+					emit(&MCase{Change: ch.c, File: file, Tag: fmt.Sprintf("%s/%s/%s", k.id, ch.layout, strings.Join(pat, "")), Alts: ch.alts})
 				}
 			}
 		}
@@ -232,6 +267,7 @@ func c04Gen(tier string, emit func(any)) {
 type c04Change struct {
 	c      *model.Change
 	layout string
+	alts   []*model.Change
 }
 
 // c04Changes renders the pattern in the promised '+' layouts.
@@ -255,7 +291,9 @@ func c04Changes(k c04Kind, pat []string) []c04Change {
 	if !k.noCtx {
 		var lines []string
 		for _, ln := range strings.Split(k.open, "\n") {
-			lines = append(lines, " "+ln)
+			if k.open != "" {
+				lines = append(lines, " "+ln)
+			}
 		}
 		replaced := false
 		di := 0
@@ -277,8 +315,10 @@ func c04Changes(k c04Kind, pat []string) []c04Change {
 			lines = append(lines, " "+txt)
 		}
 		if replaced {
-			lines = append(lines, " "+k.close)
-			out = append(out, c04Change{&model.Change{Meta: meta, Kind: k.kind, Lines: model.L(lines...)}, "ctx"})
+			if k.close != "" {
+				lines = append(lines, " "+k.close)
+			}
+			out = append(out, c04Change{c: &model.Change{Meta: meta, Kind: k.kind, Lines: model.L(lines...)}, layout: "ctx"})
 		}
 	}
 	// layouts (i'): as (i) but the explicit element is kept and a new one inserted after it /
@@ -289,7 +329,9 @@ func c04Changes(k c04Kind, pat []string) []c04Change {
 		}
 		var lines []string
 		for _, ln := range strings.Split(k.open, "\n") {
-			lines = append(lines, " "+ln)
+			if k.open != "" {
+				lines = append(lines, " "+ln)
+			}
 		}
 		done := false
 		di := 0
@@ -310,8 +352,10 @@ func c04Changes(k c04Kind, pat []string) []c04Change {
 			lines = append(lines, " "+txt)
 		}
 		if done {
-			lines = append(lines, " "+k.close)
-			out = append(out, c04Change{&model.Change{Meta: meta, Kind: k.kind, Lines: model.L(lines...)}, variant})
+			if k.close != "" {
+				lines = append(lines, " "+k.close)
+			}
+			out = append(out, c04Change{c: &model.Change{Meta: meta, Kind: k.kind, Lines: model.L(lines...)}, layout: variant})
 		}
 	}
 	// layout (iii): the whole list, with all its elisions, on ONE unchanged context line; a sibling statement changes
@@ -328,7 +372,28 @@ func c04Changes(k c04Kind, pat []string) []c04Change {
 		if k.inlineKind == "decl" {
 			lines = append(lines, " }")
 		}
-		out = append(out, c04Change{&model.Change{Meta: meta, Kind: k.inlineKind, Lines: model.L(lines...)}, "ctx-inline"})
+		out = append(out, c04Change{c: &model.Change{Meta: meta, Kind: k.inlineKind, Lines: model.L(lines...)}, layout: "ctx-inline"})
+	}
+	// layout (iv): as (iii), but the sibling is a call with an elision of its own that moves from above the list
+	// to below it: the list keeps what it elided; the moved line's elision may repeat any '-' elision
+	if k.inlineKind == "stmts" {
+		var els []string
+		di := 0
+		for _, e := range pat {
+			if e == "D" {
+				di++
+			}
+			els = append(els, elem(e, di+1))
+		}
+		ctx := " " + k.inlineOpen + strings.Join(els, k.sep) + k.inlineClose
+		mk := func(j int) *model.Change {
+			return &model.Change{Meta: meta, Kind: "stmts", Lines: model.L("-pre(DOTS_1)", ctx, fmt.Sprintf("+pre(DOTS_%d)", j))}
+		}
+		ch := c04Change{c: mk(1), layout: "ctx-moved"}
+		for j := 2; j <= di+1; j++ {
+			ch.alts = append(ch.alts, mk(j))
+		}
+		out = append(out, ch)
 	}
 	// layout (ii): exactly one elision on each side, single line, both orders
 	nd := 0
@@ -352,8 +417,8 @@ func c04Changes(k c04Kind, pat []string) []c04Change {
 		}
 		minus := tagged("-", k.open+body+k.close)
 		plus := tagged("+", k.openPlus+body+k.close)
-		out = append(out, c04Change{&model.Change{Meta: meta, Kind: k.kind, Lines: model.L(append(append([]string{}, minus...), plus...)...)}, "one-minus-first"})
-		out = append(out, c04Change{&model.Change{Meta: meta, Kind: k.kind, Lines: model.L(append(append([]string{}, plus...), minus...)...)}, "one-plus-first"})
+		out = append(out, c04Change{c: &model.Change{Meta: meta, Kind: k.kind, Lines: model.L(append(append([]string{}, minus...), plus...)...)}, layout: "one-minus-first"})
+		out = append(out, c04Change{c: &model.Change{Meta: meta, Kind: k.kind, Lines: model.L(append(append([]string{}, plus...), minus...)...)}, layout: "one-plus-first"})
 	}
 	return out
 }
